@@ -9,6 +9,10 @@ TRUSTED = ['independent bond count: the kekulised molecule (written by the libra
            'by spec/Reader.v and judged against the table in force by valence_ok (bond-order sum + explicit H <= capacity; key E, E+n, E-n, fallback ?)']
 
 
+def s_tab(t):
+    return sf().get_preset_constraints(t[1]) if t[0] == 'name' else dict(t[1])
+
+
 def work2(chunk, extra):
     """strict=False under two tables (the one in force and the relaxed one) and strict=True"""
     s_ = sf()
@@ -18,6 +22,9 @@ def work2(chunk, extra):
         r['nonstrict_relaxed'] = call(s_.encoder, x, strict=False)
         dec_common.set_table(s_, t)
         r['nonstrict_again'] = call(s_.encoder, x, strict=False)
+        if extra and extra.get('direct'):
+            # the input itself read by the Coq reader and judged against the table (no aromatic atoms in these inputs)
+            r['direct'] = core.drv().one(['rt', core.T(t), S(x), S(x)])
     return out
 
 
@@ -66,8 +73,37 @@ def run(rep, tier, seed, b):
         if 'ok' in im and im['ok'] != ns['ok']:
             rep.oracle_failures.append({'clause': 'strict and non-strict encoding return the same string when both succeed', 'input': inp, 'impl': [im, ns]})
         rep.nontriv(it[1] + str(sorted(it[0].items())))
-    # tables that change between calls, incl. the caller editing the dict it passed: the verdict follows get_semantic_constraints()
+    # atoms whose explicit hydrogens alone reach or exceed the capacity (isolated, bonded, in a later fragment): the kekulised form cannot be
+    # written by the decoder for these, so the INPUT is read by the Coq reader and judged directly
     import hist_common as H
+    ditems = []
+    for _ in range(400 if tier == 'quick' else 8000):
+        c = H.h_boundary(rng)
+        tsmall = s_tab(c['small']); tbig = s_tab(c['big'])
+        core_atom = c['smiles'][c['smiles'].index('['):c['smiles'].index(']') + 1]
+        for x in (core_atom, 'C' + core_atom, 'CC.' + core_atom + '.[Cl-]', core_atom + 'C', c['smiles']):
+            ditems.append((tsmall if rng.random() < 0.6 else tbig, x, True, False))
+    dres = core.pmap('p_c06', 'work2', ditems, extra={'direct': True}, chunk=300)
+    for it, r in zip(ditems, dres):
+        rep.evaluations += 1
+        rep.impl_traces += 3
+        inp = {'table': it[0], 'smiles': it[1]}
+        im = r['impl']
+        if im != r['model']:
+            rep.disagreements.append({'op': 'encoder(strict=True)', 'input': inp, 'impl': im, 'model': r['model']})
+        dct = r.get('direct') or {}
+        ns = r.get('nonstrict', {})
+        if 'ok' not in ns or not dct.get('same_molecule'):
+            rep.count('H-boundary: not parseable (not judged)')
+            continue
+        viol = dct.get('violates_out')
+        rep.count('H-boundary: violating' if viol else 'H-boundary: obeying')
+        if viol and 'ok' in im:
+            rep.oracle_failures.append({'clause': 'strict=True raises EncoderError when some atom exceeds its capacity (explicit hydrogens count)', 'input': inp, 'impl': im})
+        if (not viol) and 'ok' not in im:
+            rep.oracle_failures.append({'clause': 'strict=True accepts every molecule that obeys the table', 'input': inp, 'impl': im})
+        rep.nontriv(it[1] + str(sorted(it[0].items())))
+    # tables that change between calls, incl. the caller editing the dict it passed: the verdict follows get_semantic_constraints()
     probes = ['CN(C)(C)(C)C', 'CN(C)(C)C', 'CS(=O)(=O)C', 'CS(=O)C', 'C[Si](C)(C)C', 'COC', 'CC(C)(C)C', 'CF', 'FCF', 'C=O', 'C#N', 'CP(C)(C)(C)C', 'C[O+](C)C', 'OCl(=O)=O']
     for _ in range(60 if tier == 'quick' else 800):
         d0 = H.random_dict(rng, valid=True)
@@ -93,7 +129,7 @@ def run(rep, tier, seed, b):
     for it, r in list(zip(items, res))[:4]:
         rep.sample({'smiles': it[1], 'strict': r['impl'], 'independent_count_says_violation': (r.get('c06') or {}).get('violates')})
     rep.rule = ('dataset molecules re-spelt and mutated (charges, explicit H, elements covered only by "?") x %d tables (presets and presets with capacities moved by 1-2, extra charged keys), '
-                'plus per-element molecules at capacity-1 / capacity / capacity+1; for each: strict=True outcome vs the independent count, strict=False under the table in force, '
+                'plus per-element molecules at capacity-1 / capacity / capacity+1, plus atoms whose explicit H alone reach / exceed the capacity (isolated, bonded, later fragment; input read directly by the Coq reader); for each: strict=True outcome vs the independent count, strict=False under the table in force, '
                 'under a relaxed table and again. non-trivial = distinct judged (molecule, table)' % len(tabs))
 
 
